@@ -123,6 +123,20 @@ def op_c08_menu(job):
     return out
 
 
+def op_c08_mimetable(job):
+    """The MIME / encoding tables the server works with (stdlib mimetypes after init_mimetypes has read
+    conf/mime.types and the configured encodings) and the type mapping of the configuration."""
+    import mimetypes
+    w = DRV.World({"tree": [], "config": job.get("config")})
+    try:
+        return {"types": dict(mimetypes.types_map), "common": dict(mimetypes.common_types),
+                "encodings": dict(mimetypes.encodings_map), "suffix": dict(mimetypes.suffix_map),
+                "mapping": eval(w.config.get("GopherEntry", "mapping")),
+                "default": w.config.get("GopherEntry", "defaultmimetype")}
+    finally:
+        w.close()
+
+
 def register(OPS, drv):
     global DRV
     DRV = drv
@@ -130,3 +144,4 @@ def register(OPS, drv):
     OPS["c08_parse"] = op_c08_parse
     OPS["c08_sidecar"] = op_c08_sidecar
     OPS["c08_menu"] = op_c08_menu
+    OPS["c08_mimetable"] = op_c08_mimetable
